@@ -1903,3 +1903,9 @@ M("c12-overflow-fallback-parity-inverted", "C12", "R4.overflow-fallback-follows-
   "(config.backoff_rate > 0 or (attempts_made - 1) % 2 == 0)", "(config.backoff_rate > 0 or (attempts_made - 1) % 2 != 0)")
 M("c12-retry-delay-dropped-when-retrying", "C12", "R2.decision-implies-effect", "operation/step.py",
   "            delay_seconds = retry_decision.delay_seconds if should_retry else 0", "            delay_seconds = retry_decision.delay_seconds if not should_retry else 0")
+M("c06-failure-look-does-not-look", "C06", "R5.failure-look-raises-what-it-finds", "state.py",
+  "            try:\n                self._checkpointing_failed.wait()\n            except BackgroundThreadError as bg_error:", "            try:\n                pass\n            except BackgroundThreadError as bg_error:")
+M("c20-replay-children-written-when-false", "C20", "R3.emission-guard-withholds-absent-values-only", "lambda_service.py",
+  "            if self.context_details.replay_children:\n                context_dict", "            if not self.context_details.replay_children:\n                context_dict")
+M("c10-parent-link-not-registered", "C10", "R3.parent-links-are-registered-where-the-walk-reads-them", "state.py",
+  "                    self._parent_of[operation_update.operation_id] = (\n                        operation_update.parent_id\n                    )", "                    pass")
